@@ -39,6 +39,8 @@ POLICIES = ("ignore", "stdout", "stderr", "panic")
 
 def gen_unit(rng):
     u = c06.gen_unit(rng)
+    # every byte offset of the input becomes a fault point: keep inputs short (C06's very long regions do not belong here)
+    u["gaps"] = [[t for t in g if len(t) <= 40][:6] for g in u["gaps"]]
     u["pipeline"] = rng.choice(list(PIPELINES))
     u["policy"] = rng.choice(POLICIES)
     if rng.random() < 0.5:
